@@ -188,7 +188,7 @@ fn syscall_monitor(rep: &mut Report) {
 pub fn run(ctx: &Ctx) -> i32 {
     let t = Instant::now();
     let mut rep = Report::default();
-    let g = Group { name: "histories", cases: ctx.tier.pick(400, 20_000), budget_s: ctx.tier.pick(50.0, 1200.0), exhaustive: false };
+    let g = Group { name: "histories", cases: ctx.tier.pick(400, 20_000), budget_s: ctx.tier.pick(50.0, 720.0), exhaustive: false };
     run_group(ctx, &mut rep, &g, |_, seed, trace| case(seed, trace));
     if ctx.replay.is_none() {
         syscall_monitor(&mut rep);
@@ -196,7 +196,7 @@ pub fn run(ctx: &Ctx) -> i32 {
     // endings: connections closed by either side, peers vanishing, stateless resets hitting closed
     // connections (the C08 scenarios): whatever a drained connection still emits or keeps armed
     // is this property's business
-    let g = Group { name: "after-drain", cases: ctx.tier.pick(1200, 60_000), budget_s: ctx.tier.pick(12.0, 400.0), exhaustive: false };
+    let g = Group { name: "after-drain", cases: ctx.tier.pick(1200, 60_000), budget_s: ctx.tier.pick(12.0, 240.0), exhaustive: false };
     run_group(ctx, &mut rep, &g, |_, seed, trace| {
         let mut out = super::c08::case(seed, crate::world::Lane::Null, trace);
         for v in out.viol.iter_mut() {
